@@ -16,6 +16,43 @@ Theorem C22_extender_uses_beta : forall b0 sg s,
 Proof. intros. split; [apply extender_hop_beta | apply extender_peer_beta]. Qed.
 Print Assumptions C22_extender_uses_beta.
 
+(** The same, read off the FINISHED segment: whatever is appended later ([ext]), entry
+    [length sg] of the final segment has as construction-time value exactly what the extender
+    computed when it appended that entry ([extract_beta] over the entries then present; for
+    its peer hop fields folded with the new hop's MAC prefix [s]).  This is what ties the
+    extension-time statement above to [construction_segid] on the segments the combinator
+    and the routers see. *)
+Theorem C22_extension_time_is_final : forall b0 sg s ext,
+  construction_segid b0 (sg ++ s :: ext) (length sg) false = extract_beta b0 sg /\
+  construction_segid b0 (sg ++ s :: ext) (length sg) true = N.lxor (extract_beta b0 sg) s.
+Proof.
+  intros. split.
+  - unfold construction_segid. rewrite beta_app_prefix by lia. symmetry. apply extract_beta_all.
+  - replace (sg ++ s :: ext) with ((sg ++ [s]) ++ ext) by (rewrite <- app_assoc; reflexivity).
+    unfold construction_segid. rewrite beta_app_prefix by (rewrite app_length; cbn; lia).
+    symmetry. apply extender_peer_beta.
+Qed.
+Print Assumptions C22_extension_time_is_final.
+
+(** The check of the [CMacIn] cases (SegID found inside the MAC input of the hop fields the real
+    extender produced) compares with the extension-time value; by the theorem above that is
+    the construction-time value of the finished segment, so model and oracle of those cases
+    coincide on every entry of every segment. *)
+Theorem C22_macin_model_is_oracle : forall b0 sg (i : nat) (p : bool), (i < length sg)%nat ->
+  (if p then N.lxor (extract_beta b0 (firstn i sg)) (nth i sg 0) else extract_beta b0 (firstn i sg)) =
+  construction_segid b0 sg i p.
+Proof.
+  intros b0 sg i p H.
+  assert (E : sg = firstn i sg ++ nth i sg 0 :: skipn (S i) sg).
+  { rewrite <- (firstn_skipn i sg) at 1. f_equal.
+    clear b0 p. revert i H. induction sg as [|x t IH]; intros i H; cbn [length] in H; [lia|].
+    destruct i as [|i]; [reflexivity|]. cbn [skipn nth]. apply IH. lia. }
+  assert (L : length (firstn i sg) = i) by (apply firstn_length_le; lia).
+  destruct (C22_extension_time_is_final b0 (firstn i sg) (nth i sg 0) (skipn (S i) sg)) as [A B].
+  rewrite <- E, L in A, B. destruct p; [now rewrite B|now rewrite A].
+Qed.
+Print Assumptions C22_macin_model_is_oracle.
+
 (** Path combination writes into the info field the construction-time value of
     the first hop field the packet will be verified against: for a segment used
     in construction direction the hop at the entry point (its peer hop field
